@@ -338,10 +338,6 @@ def normalise(nodes, closing='', eof_ok=True):
                 guard = ['.', ',', '\n\n', '!'][len(tail) % 4]
             elif ends_in_name(n) and _NL.match(tail):
                 guard = [' ', '.', '\n', '-'][len(tail) % 4]
-        elif t == 'E':
-            # D9 domain restriction: no group directly after \end{..}
-            if _BR.match(tail):
-                guard = '.'
         elif t == 'M':
             if n[1] == '$' and tail.startswith('$'):
                 guard = [' ', '.'][len(tail) % 2]
